@@ -528,7 +528,8 @@ pub fn run(tier: Tier, seed: u64, replay: Option<String>) -> i32 {
                             Outcome::Ok(o) if o.warnings.is_empty() => {
                                 match host.check_one(&o.generated, cfg.no_std_compliant_bindings, &format!("shr{iters}")) {
                                     Err(e) => {
-                                        !e.starts_with("INFRA")
+                                        classify(&text, &o.generated, &e) == fid
+                                            && !e.starts_with("INFRA")
                                             && host::first_error(&e).split(':').take(2).collect::<Vec<_>>().join(":").chars().take(60).collect::<String>() == head_key
                                     }
                                     Ok(()) => false,
